@@ -104,6 +104,8 @@ type FnCtx struct {
 	axiomsDone  map[string]bool
 	frameExcept []Val
 	dispatchDepth int
+	knownInts   map[string]int64
+	openBound   []string // bound variables of the quantifiers currently being evaluated
 	boxed       map[types.Object]bool // locals whose address is taken live in the pointer heap
 }
 
@@ -191,9 +193,11 @@ func (c *FnCtx) fact(fact string) {
 	if fact == "true" || c.factCache[fact] {
 		return
 	}
-	if strings.Contains(fact, "?") && hasFreeBound(fact) {
-		// mentions a bound variable of a specification quantifier: not a global fact
-		return
+	for _, bv := range c.openBound {
+		if strings.Contains(fact, bv) {
+			// mentions a bound variable of a quantifier being built: not a global fact
+			return
+		}
 	}
 	c.factCache[fact] = true
 	c.emit(sx("assert", fact))
@@ -667,7 +671,7 @@ func (c *FnCtx) mergeVals(hint string, live []*State, get func(*State) Val) Val 
 	return v
 }
 
-var boundTok = regexp.MustCompile(`[A-Za-z_][A-Za-z0-9_]*\?[0-9]+a?`)
+var boundTok = regexp.MustCompile(`[A-Za-z_][A-Za-z0-9_]*\?[0-9]+(a[0-9]*)?`)
 
 // hasFreeBound reports whether a term mentions a quantifier-bound variable outside its binder.
 func hasFreeBound(t string) bool {
